@@ -3,6 +3,7 @@
 //! choices (stream behaviour, arrival orders, budgets, CPU dispatch, consumer histories)
 //! drawn from one seed.
 
+mod c04;
 mod c05;
 mod c16;
 mod c18;
@@ -40,6 +41,7 @@ fn main() {
     }
     let opts = Opts::from_args(&args[2..]);
     let code = match check {
+        "c04-pipeline" => run(c04::C04, &opts),
         "c05-budget" => run(c05::C05, &opts),
         "c05-unhooked" => c05::unhooked(&opts),
         "c16-ingest" => run(c16::C16, &opts),
